@@ -598,7 +598,9 @@ fn record_to_proto(record: Record) -> proto::Record {
             .map(|t| {
                 let now = Instant::now();
                 if t > now {
-                    (t - now).as_secs() as u32
+                    // A remaining lifetime below one second must not be rounded
+                    // down to 0, which means "does not expire".
+                    ((t - now).as_secs() as u32).max(1)
                 } else {
                     1 // because 0 means "does not expire"
                 }
